@@ -1246,7 +1246,9 @@ class SuccessionDiagram:
         Expand the succession diagram and search for attractors using default methods.
         """
         self.expand_block()
-        for node_id in self.node_ids():
+        # Block expansion can leave unexpanded nodes behind. Searching those as well would
+        # report the attractors of their (unknown) successors a second time.
+        for node_id in self.expanded_ids():
             self.node_attractor_seeds(node_id, compute=True)
 
     def expand_scc(self, find_motif_avoidant_attractors: bool = True) -> bool:
